@@ -97,6 +97,31 @@ SCENARIOS = {
                    _ap([1, 1], aff='kv', prio=4, limits={'pod': 1}),
                    _ap([1, 1], aff='low', prio=1)],
         groups={}, apps=['a1', 'a2', 'a3', 'a4', 'a5', 'a6']),
+    # mixed sizes: an eviction that does not help (the victim's server stays too full)
+    # followed by one that does, within one rack limit
+    'evict3': dict(
+        dims=2, racks={'r1': ['s1', 's2'], 'r2': ['s3']}, pods={},
+        sprofiles=[_sp([3, 3])],
+        server_init={'s1': 1, 's2': 1, 's3': 0},
+        allocs={'x': _al()},
+        aprofiles=[_ap([1, 1], aff='idx', prio=1, limits={'rack': 1}),
+                   _ap([2, 2], aff='idx', prio=8, limits={'rack': 1}),
+                   _ap([2, 2], aff='big', prio=9),
+                   _ap([2, 2], aff='low', prio=2),
+                   _ap([1, 1], aff='low', prio=3)],
+        groups={}, apps=['a1', 'a2', 'a3', 'a4', 'a5', 'a6']),
+    # the same at cell level with a third, smaller server that appears later
+    'evict4': dict(
+        dims=2, racks={'r1': ['s1', 's2', 's3']}, pods={},
+        sprofiles=[_sp([10, 10]), _sp([6, 6])],
+        server_init={'s1': 1, 's2': 1, 's3': 0},
+        allocs={'x': _al()},
+        aprofiles=[_ap([8, 8], aff='h', prio=100),
+                   _ap([2, 2], aff='x', prio=100, limits={'cell': 2}),
+                   _ap([6, 6], aff='y', prio=2),
+                   _ap([2, 2], aff='x', prio=1, limits={'cell': 2}),
+                   _ap([6, 6], aff='x', prio=50, limits={'cell': 2})],
+        groups={}, apps=['a1', 'a2', 'a3', 'a4', 'a5', 'a6']),
     # identities: grow, shrink, delete, blacklist, schedule-once
     'identity': dict(
         dims=2, racks={'r1': ['s1', 's2']}, pods={},
@@ -421,6 +446,29 @@ def gen_identity_chain(scn, rng):
             h.append(('Tick', [1]))
     for a in late:
         h.append(('Submit', [a, rng.choice(gprofs)]))
+    h += [('Cycle', []), ('Cycle', [])]
+    return h
+
+
+def gen_mixed_evict(scn, rng):
+    """A few instances of every kind placed, then one or two of the higher-priority
+    kinds arrive: evictions that help and evictions that do not, in one pass."""
+    profs = scn['aprofiles']
+    apps = list(scn['apps'])
+    rng.shuffle(apps)
+    n = rng.randrange(2, len(apps) - 1)
+    # (mostly one instance of each kind, in any order)
+    kinds = rng.sample(range(1, len(profs) + 1), min(n, len(profs)))
+    h = [('Submit', [a, kinds[j] if j < len(kinds) and rng.random() < 0.8 else rng.randrange(len(profs)) + 1])
+         for j, a in enumerate(apps[:n])] + [('Cycle', [])]
+    # servers that were not there yet join before the late arrivals
+    for s, k in sorted(scn['server_init'].items()):
+        if not k and rng.random() < 0.6:
+            h.append(('AddServer', [s, rng.randrange(len(scn['sprofiles'])) + 1]))
+    top = sorted(range(len(profs)), key=lambda i: -profs[i]['prio'])[:max(2, len(profs) // 2)]
+    rest = [i for i in range(len(profs)) if i + 1 not in kinds[:n]]
+    for a in apps[n:n + rng.randrange(1, 3)]:
+        h.append(('Submit', [a, (rng.choice(rest) if rest and rng.random() < 0.6 else rng.choice(top)) + 1]))
     h += [('Cycle', []), ('Cycle', [])]
     return h
 
